@@ -44,6 +44,8 @@ GRID = [round(0.05 * i, 2) for i in range(0, 33) if (i % 10) != 0] + \
 def valid_response(rnd, gen):
     host = rnd.choice(["192.168.1.%d" % rnd.randint(2, 250), "10.0.0.7", "at.local", "",
                        "10.1.2.3",   # (the address unicast searches are directed at)
+                       # a host name that begins like the request of either model
+                       "HF-A11ASSISTHREAD-0042", "::REQUEST-POLYAIRE-AIRTOUCH-DEVICE-INFO:;2",
                        # long ones: a fully qualified name, an IPv6 address written out
                        "console-living-room.home.example.org",
                        "fe80:0000:0000:0000:0202:b3ff:fe1e:8329"])
